@@ -2,8 +2,10 @@ package checks
 
 import (
 	"fmt"
+	"go.mongodb.org/mongo-driver/mongo/options"
 	"math"
 	"sync/atomic"
+	"verif/internal/world"
 
 	"go.mongodb.org/mongo-driver/bson"
 	"go.mongodb.org/mongo-driver/bson/primitive"
@@ -210,9 +212,59 @@ func init() {
 			atomic.AddInt64(&ntTriples, nt)
 		})
 		r.Sample(bson.M{"triple": []string{J(pool[40]), J(pool[41]), J(pool[42])}})
+		// through the API: a sorted Find and Distinct over a collection holding every pool value agree with the reference order
+		var apiChecks int64
+		{
+			w := world.New()
+			coll := w.C("d", "c")
+			var docs []bson.D
+			for i, v := range pool {
+				d := bson.D{{Key: "_id", Value: int32(i)}, {Key: "v", Value: v}}
+				docs = append(docs, d)
+				if _, err := coll.InsertOne(w.Ctx, d); err != nil {
+					r.Broken("insert of pool value %s: %v", J(v), err)
+				}
+			}
+			for _, dir := range []int32{1, -1} {
+				spec := bson.D{{Key: "v", Value: dir}}
+				want, _ := refmodel.Order(docs, spec)
+				cur, err := coll.Find(w.Ctx, bson.D{}, options.Find().SetSort(spec).SetProjection(bson.D{{Key: "_id", Value: int32(1)}}))
+				var got []bson.D
+				if err == nil {
+					err = cur.All(w.Ctx, &got)
+				}
+				apiChecks++
+				if err != nil || len(got) != len(want) {
+					r.Violation("api:sorted-find", fmt.Sprintf("Find().sort({v:%d}) over the pool: %d results, err %v", dir, len(got), err), bson.M{"dir": dir})
+					continue
+				}
+				for i := range want {
+					if refmodel.Cmp(got[i][0].Value, want[i][0].Value) != 0 {
+						gi, wi := int(got[i][0].Value.(int32)), int(want[i][0].Value.(int32))
+						r.Violation(c12Class("api:sorted-find", pool[gi], pool[wi]), fmt.Sprintf("Find().sort({v:%d}) over the pool: position %d holds %s, the reference order has %s there", dir, i, J(pool[gi]), J(pool[wi])), bson.M{"dir": dir, "position": i})
+						break
+					}
+				}
+			}
+			vals, err := coll.Distinct(w.Ctx, "v", bson.D{})
+			wantD := refmodel.Distinct(docs, "v")
+			apiChecks++
+			if err != nil || len(vals) != len(wantD) {
+				r.Violation("api:distinct", fmt.Sprintf("Distinct(v) over the pool returned %d values (err %v), the reference has %d", len(vals), err, len(wantD)), bson.M{})
+			} else {
+				for i := range wantD {
+					if refmodel.Cmp(vals[i], wantD[i]) != 0 {
+						r.Violation(c12Class("api:distinct", vals[i], wantD[i]), fmt.Sprintf("Distinct(v) over the pool: position %d holds %s, the reference has %s", i, J(vals[i]), J(wantD[i])), bson.M{"position": i})
+						break
+					}
+				}
+			}
+			w.Close()
+		}
+		r.Set("api_order_checks", apiChecks)
 		r.Set("pairs", evals)
 		r.Set("triples", triples)
-		r.Set("evaluations", evals+triples)
+		r.Set("evaluations", evals+triples+apiChecks)
 		r.Set("distinct_nontrivial", nontrivial+ntTriples)
 		r.Set("distinct_outcomes", int64(len(outcomes)))
 		r.Set("exhaustive", !r.TooMany())
